@@ -108,6 +108,15 @@ def charset_batches():
             its.append({'line': "\t%s 'a'" % mn, 'want': bytes([mp.get(ord('a'), ord('a'))]).hex(), 'sig': '%s/charset/char' % cpu})
             its.append({'line': '\t%s 97' % mn, 'want': '61', 'sig': '%s/charset/int-unaffected' % cpu})
             yield pre_of(cpu) + su, its
+    # strings in fields wider than a byte: one field per character, the (translated) character code zero-extended
+    for cpu, mn, w, end in (('8086', 'dw', 2, 'little'), ('8086', 'dd', 4, 'little'), ('8086', 'dq', 8, 'little'), ('6809', 'fdb', 2, 'big'), ('6809', 'adr', 2, 'big'), ('z80', 'dw', 2, 'little')):
+        for su, mp in maps + [(["\tcharset 'a',225"], {ord('a'): 225}), (["\tcharset 'a','b',128"], {ord('a'): 128, ord('b'): 129})]:
+            its = []
+            for st in ('abcd', 'a', 'ba'):
+                if len(st) <= w and len(st) > 1 and cpu != '6809':
+                    continue        # (a short string in a wide Intel field is ONE multi-character constant)
+                its.append({'line': '\t%s "%s"' % (mn, st), 'want': b''.join(mp.get(c, c).to_bytes(w, end) for c in st.encode()).hex(), 'sig': '%s/%s/charset/string-in-wide-field' % (cpu, mn)})
+            yield pre_of(cpu) + su, its
 
 
 def dup_items():
